@@ -198,8 +198,9 @@ impl<'a, 'b> PartialEq<Template<'b>> for Template<'a> {
 
             match (&ap.0, &bp.0) {
                 (PartKind::Text { value: ref a }, PartKind::Text { value: ref b }) => {
-                    let a = a.get();
-                    let b = b.get();
+                    // Compare as bytes; the offsets may not fall on char boundaries
+                    let a = a.get().as_bytes();
+                    let b = b.get().as_bytes();
 
                     let at = &a[ati..];
                     let bt = &b[bti..];
